@@ -402,7 +402,7 @@ func runC16(r *Run, p *Prog) {
 			}
 		}
 		r.Stat("captured_variables_checked", n)
-		r.Floor("CR", 3)
+		r.Floor("CR", 1)
 	})
 }
 
